@@ -182,5 +182,38 @@ let () =
              | Reject why -> Printf.printf "%s REJECT %s\n" id why in
            attempt 400
          | _ -> Printf.printf "%s UNJUDGED\n" id)
+      | id :: "SEM" :: size :: ops ->
+        (* a script for semaphore.Weighted (harness sem.go) replayed on Model/CopyImplSem.v:
+           a:<w>:<ctxdone>:<g|b|f>  r:<woken waiter | ->  c:<w> *)
+        let s = ref (ssize_init (nat_of_int (int_of_string size))) in
+        let bad = ref None in
+        let stepm o = match sstep !s o with Some (s', r) -> s := s'; Some r | None -> None in
+        List.iteri (fun i tok ->
+            if !bad = None then begin
+              let wrong why = bad := Some (Printf.sprintf "%d %s %s" i tok why) in
+              match String.split_on_char ':' tok with
+              | ["a"; w; d; r] ->
+                (match stepm (SAcquire (nat_of_int (int_of_string w), d = "1")), r with
+                 | Some RGranted, "g" | Some RBlocked, "b" | Some RFailed, "f" -> ()
+                 | _ -> wrong "Acquire_result_differs_from_the_model")
+              | ["r"; w] ->
+                (match stepm SRelease with
+                 | Some (RDone woken) ->
+                   let wk = List.map int_of_nat woken in
+                   if (w = "-" && wk = []) || (w <> "-" && wk = [int_of_string w]) then
+                     (if w <> "-" then match stepm (SWake (nat_of_int (int_of_string w), false)) with Some RGranted -> () | _ -> wrong "wake")
+                   else wrong (Printf.sprintf "Release_wakes_[%s]_in_the_model" (String.concat "," (List.map string_of_int wk)))
+                 | _ -> wrong "Release_not_enabled")
+              | ["c"; w] ->
+                (match stepm (SCancel (nat_of_int (int_of_string w))) with
+                 | Some (RDone []) -> ()
+                 | _ -> wrong "cancel_differs")
+              | _ -> wrong "unknown_op"
+            end) ops;
+        (match !bad with
+         | Some why -> Printf.printf "%s REJECT %s\n" id why
+         | None ->
+           Printf.printf "%s SEM held=%d wait=%s\n" id (int_of_nat (!s).s_held)
+             (match (!s).s_wait with [] -> "-" | l -> String.concat "," (List.map (fun x -> string_of_int (int_of_nat x)) l)))
       | id :: _ -> Printf.printf "%s UNJUDGED\n" id
       | [] -> ())
